@@ -148,6 +148,9 @@ fn series() -> BoxedStrategy<Series> {
 }
 
 fn case_strategy(clean: bool, n_cells: (usize, usize), n_names: (usize, usize), n_series: (usize, usize)) -> BoxedStrategy<Case> {
+    // defined names see the edits of every sheet (open finding R5): to keep names that can be
+    // asserted strictly, most names and most edits of the name/series strata go to sheet 0
+    let focus = n_names.1 > 0 && clean;
     (
         sheets(),
         prop::collection::vec(fcell(), n_cells.0..=n_cells.1),
@@ -155,7 +158,23 @@ fn case_strategy(clean: bool, n_cells: (usize, usize), n_names: (usize, usize), 
         prop::collection::vec(series(), n_series.0..=n_series.1),
         prop::collection::vec(op_raw(), 1..=6),
     )
-        .prop_map(move |(sheets, cells, names, series, ops)| Case { clean, sheets, cells, names, series, ops })
+        .prop_map(move |(sheets, cells, mut names, series, mut ops)| {
+            if focus {
+                for o in ops.iter_mut() {
+                    if o.sheet % 10 < 7 {
+                        o.sheet = 0;
+                    }
+                }
+                for d in names.iter_mut() {
+                    for p in d.parts.iter_mut() {
+                        if p.0 % 10 < 7 {
+                            p.0 = 0;
+                        }
+                    }
+                }
+            }
+            Case { clean, sheets, cells, names, series, ops }
+        })
         .boxed()
 }
 
@@ -293,6 +312,41 @@ fn fit_ops(ops: &[OpRaw], n_sheets: usize, tracked: &[(usize, Area)]) -> Vec<(us
     out
 }
 
+/// does a cell at (col,row) survive the edits physically?
+fn survives(mut pos: (u32, u32), edits: &[Edit]) -> bool {
+    for e in edits {
+        match *e {
+            Edit::InsertRows { at, n } => {
+                if pos.1 >= at {
+                    pos.1 += n
+                }
+            }
+            Edit::InsertCols { at, n } => {
+                if pos.0 >= at {
+                    pos.0 += n
+                }
+            }
+            Edit::RemoveRows { at, n } => {
+                if pos.1 >= at && pos.1 < at + n {
+                    return false;
+                }
+                if pos.1 >= at + n {
+                    pos.1 -= n
+                }
+            }
+            Edit::RemoveCols { at, n } => {
+                if pos.0 >= at && pos.0 < at + n {
+                    return false;
+                }
+                if pos.0 >= at + n {
+                    pos.0 -= n
+                }
+            }
+        }
+    }
+    true
+}
+
 pub fn resolve(c: &Case) -> Resolved {
     let mut excluded = Vec::new();
     let sheets = c.sheets.clone();
@@ -382,6 +436,24 @@ pub fn resolve(c: &Case) -> Resolved {
         }
     }
     let edits = fit_ops(&c.ops, n, &tracked);
+    // put every formula cell where no removal deletes it, whether the edits of other sheets
+    // physically reach its sheet (R5) or not; the position is irrelevant to its references
+    let mut taken: Vec<(usize, (u32, u32))> = Vec::new();
+    for cell in cells.iter_mut() {
+        let host = cell.0;
+        let own: Vec<Edit> = edits.iter().filter(|(s, _)| *s == host).map(|(_, e)| *e).collect();
+        let all: Vec<Edit> = edits.iter().map(|(_, e)| *e).collect();
+        let mut pos = cell.1;
+        for k in 0..80u32 {
+            let cand = (cell.1 .0 + k * 7, cell.1 .1 + k * 11);
+            if survives(cand, &own) && survives(cand, &all) && !taken.contains(&(host, cand)) {
+                pos = cand;
+                break;
+            }
+        }
+        cell.1 = pos;
+        taken.push((host, pos));
+    }
     let mut r = Resolved { sheets, cells, names, series, edits, excluded };
     if c.clean {
         steer_refs(&mut r);
@@ -1071,9 +1143,9 @@ fn check(c: &Case, obs: &mut Obs) -> Verdict {
 
 fn subs() -> Vec<Box<dyn DynSub>> {
     vec![
-        Box::new(Sub { name: "cells", strategy: cells_cases, cases: (1000, 30_000), check, max_shrink_iters: 2500 }),
-        Box::new(Sub { name: "defined-names", strategy: names_cases, cases: (500, 12_000), check, max_shrink_iters: 2500 }),
-        Box::new(Sub { name: "chart-series", strategy: series_cases, cases: (300, 8_000), check, max_shrink_iters: 2500 }),
-        Box::new(Sub { name: "dirty", strategy: dirty_cases, cases: (250, 5_000), check, max_shrink_iters: 2500 }),
+        Box::new(Sub { name: "cells", strategy: cells_cases, cases: (800, 30_000), check, max_shrink_iters: 2500 }),
+        Box::new(Sub { name: "defined-names", strategy: names_cases, cases: (400, 12_000), check, max_shrink_iters: 2500 }),
+        Box::new(Sub { name: "chart-series", strategy: series_cases, cases: (250, 8_000), check, max_shrink_iters: 2500 }),
+        Box::new(Sub { name: "dirty", strategy: dirty_cases, cases: (200, 5_000), check, max_shrink_iters: 2500 }),
     ]
 }
